@@ -128,6 +128,21 @@ func c14Gen(g *Gen) {
 					fmt.Sprintf("cont x0 %s %s cur=$ca call=$ka cancel=0 sess=- out=- ptr=1 xcur=$cb xcall=- in=i64", id, b),
 					fmt.Sprintf("cont x0 %s %s cur=- call=$kb cancel=0 sess=- out=- ptr=1 xcur=$ca2 xcall=- in=i64", id, b),
 					fmt.Sprintf("cont i1 %s %s cur=$cb call=$kb cancel=0 sess=- out=- ptr=1 xcur=$ca xcall=$ka in=i64", id, b))
+				// a handler that rewrites its CallContext.Method / RequestID (init handler and every turn) to b's
+				// name while serving a: what it mints stays bound to a — b's route refuses it, a's route resumes it
+				lines = append(lines, fmt.Sprintf("init i0 %s %s limit=40 sess=- cur=ra call=rk retag=%s", id, a, b))
+				cont("i0", b, "$ra", "$rk", 0, "-")
+				cont("i1", a, "$ra", "$rk", 0, "ra2")
+				cont("i1", b, "$ra2", "$rk", 0, "-")
+				cont("i0", a, "$ra2", "$rk", 0, "ra3")
+				cont("i1", b, "$ra3", "$rk", r.Intn(2), "-")
+				// a refused pairing (b's cursor with a's call token) on an instance with no entry for b's call
+				// must not leave a's call behind under b's call id
+				lines = append(lines, tkInstLine("p0", key, 100000, 4096, false, "wp", rh, true))
+				cont("p0", b, "$cb", "$ka", 0, "-")
+				cont("p0", b, "$cb", "$kb", 0, "cbp")
+				cont("p0", a, "$ca2", "$kb", 0, "-")
+				cont("p0", a, "$ca2", "$ka", 0, "cap")
 				// both streams still continue on their own routes
 				cont("i1", a, "$ca2", "$ka", 0, "ca3")
 				cont("i1", b, "$cb", "$kb", 0, "cb2")
